@@ -43,6 +43,10 @@ var c07Shapes = []c07Shape{
 	{"multi-assign", "$x, $y = $_", true},
 	{"generic-call", "gen[$x]($y)", true},
 	{"key-value", "$x: $y", true},
+	// an optional `$*` part that is absent in the matched statement is captured as a nil interface value
+	{"optional-if-init", "if $*x; $y { $*_ }", true},
+	{"optional-switch-init", "switch $*x; $y { $*_ }", true},
+	{"optional-else", "if $y { $*_ } else $*x", true},
 }
 
 // filters over $x (and $y where the shape has it); `%s` is the variable name
